@@ -28,6 +28,7 @@ package align
 //@ ghostzero align.align isalign 1
 //@ ghostzero align.seqbag isalign 0
 //@ pure func isalign(sb *seqbag) bool = gfield(sb, isalign) == 1
+//@ pure func alen(a *align) int = a.length
 
 //@ func NewSeqBag
 //@   props C01 C03
@@ -46,6 +47,10 @@ package align
 //@   ensures result == nil && old(nrows(recv)) == 0 ==> nrows(recv) == 1 && rowlen(recv, 0) == len(sequence)
 //@   ensures result != nil ==> nrows(recv) == old(nrows(recv))
 //@   ensures recv.alphabet == old(recv.alphabet) && recv.ignoreidentical == old(recv.ignoreidentical)
+// under the rename policy (IGNORE_NONE) a row is always added, unless the receiver is an alignment and the length differs; an alignment with rows keeps its length
+// (both clauses are proved for the implementation (*align).AddSequenceChar, see its contract; (*seqbag).AddSequenceChar always adds under the rename policy)
+//@   ensures recv.ignoreidentical == IGNORE_NONE && (!isalign(recv) || old(alen(recv)) == -1 || old(alen(recv)) == len(sequence)) ==> result == nil && nrows(recv) == old(nrows(recv)) + 1
+//@   ensures isalign(recv) && old(nrows(recv)) >= 1 ==> alen(recv) == old(alen(recv))
 //@   modifies field(seqbag.seqs), field(align.length), mem(*seq), maps(map[string]*seq)
 //@ func (SeqBag).IgnoreIdentical
 //@   props C03
@@ -64,6 +69,19 @@ package align
 //@   requires recv != nil
 //@   ensures recv.alphabet == old(recv.alphabet) || recv.alphabet == AMINOACIDS || recv.alphabet == NUCLEOTIDS
 //@   modifies field(seqbag.alphabet)
+
+// proved counterpart of the interface-level contract (SeqBag).IgnoreIdentical
+//@ func (*seqbag).IgnoreIdentical
+//@   props C03
+//@   requires sb != nil
+//@   ensures sb.ignoreidentical == ((ignore == IGNORE_NAME || ignore == IGNORE_SEQUENCE) ? ignore : IGNORE_NONE)
+//@   modifies sb.ignoreidentical
+
+// package-level alphabet detection of one sequence (used by the Clustal parser to create the alignment)
+//@ func DetectAlphabet
+//@   props C03
+//@   ensures result == UNKNOWN || result == BOTH || result == NUCLEOTIDS || result == AMINOACIDS
+//@   modifies nothing
 
 //@ func (*seqbag).DetectAlphabet
 //@   props C03 C05
@@ -105,14 +123,21 @@ package align
 //@     decreases len(s.sequence) - $i
 
 //@ func (*align).AddSequenceChar
-//@   props C01 C04 C19
+//@   props C01 C04 C19 C03
 //@   requires wfa(a)
 //@   ensures wfa(a)
+//@   ensures nrows(a) >= old(nrows(a)) && nrows(a) <= old(nrows(a)) + 1
+//@   ensures result == nil && old(nrows(a)) == 0 ==> nrows(a) == 1 && rowlen(a, 0) == len(sequence)
 //@   ensures result != nil ==> nrows(a) == old(nrows(a)) && a.length == old(a.length)
 //@   ensures forall r :: 0 <= r && r < old(nrows(a)) ==> row(a, r) == old(row(a, r))
 //@   ensures old(a.length) != -1 && old(a.length) != len(sequence) && !(old(has(a.seqmap, name)) && a.ignoreidentical == IGNORE_NAME) && !(old(has(a.seqmap, name)) && a.ignoreidentical == IGNORE_SEQUENCE) ==> result != nil
 //@   ensures !old(has(a.seqmap, name)) && (old(a.length) == -1 || old(a.length) == len(sequence)) ==> result == nil && nrows(a) == old(nrows(a)) + 1 && rowname(a, old(nrows(a))) == name && sameslice(row(a, old(nrows(a))).sequence, sequence) && fresh(row(a, old(nrows(a)))) && a.length == len(sequence)
 //@   ensures old(has(a.seqmap, name)) && a.ignoreidentical == IGNORE_NAME ==> result == nil && nrows(a) == old(nrows(a)) && a.length == old(a.length)
+// (C03, used by the parsers) at most one row is added; under the rename policy a row of the right length is always added; an alignment with rows keeps its length
+//@   ensures nrows(a) == old(nrows(a)) || nrows(a) == old(nrows(a)) + 1
+//@   ensures a.ignoreidentical != IGNORE_NAME && a.ignoreidentical != IGNORE_SEQUENCE && (old(a.length) == -1 || old(a.length) == len(sequence)) ==> result == nil && nrows(a) == old(nrows(a)) + 1 && a.length == len(sequence)
+//@   ensures old(nrows(a)) >= 1 ==> a.length == old(a.length)
+//@   ensures old(a.length) == -1 || old(a.length) == len(sequence) ==> result == nil
 //@   ensures a.alphabet == old(a.alphabet) && a.ignoreidentical == old(a.ignoreidentical) && a.seqmap == old(a.seqmap) && (base(a.seqs) == old(base(a.seqs)) || fresh(a.seqs))
 //@   modifies a.seqs, a.length, a.seqs[+], map(a.seqmap)
 //@   loop 1
